@@ -219,6 +219,8 @@ def run_solver(rng, obs):
     gens = rng.choice([2, 3, 5]); tol = rng.choice([1e-3, 1e-2, 0.1])
     use_target = rng.random() < 0.4
     target = rng.choice([0.0, spec[1][0]]) if use_target else None
+    if use_target and rng.random() < 0.4:      # one target per parameter (a sequence of the parameter length, as the detector documents)
+        target = [rng.choice([0.0, c, c, round(c + 0.5, 2)]) for c in spec[1]]
     conds = ['at'] if rng.random() < 0.4 else (['as'] if rng.random() < 0.3 else ['at', 'as'])
     obs.desc = {'solver': kind, 'dim': dim, 'cost': spec, 'window': gens, 'tol': tol, 'target': target, 'collapse': conds}
     probe = K.CostProbe(raw)
@@ -289,7 +291,7 @@ def run_solver(rng, obs):
                 obs.check(not (prev & set(v)), 'solver:the same collapse is never reported again', condition=name, again=sorted(map(str, prev & set(v))), solver=kind)
                 if name == 'CollapseAt':
                     for i in v:
-                        fixed[int(i)] = float(target) if target is not None else best[int(i)]
+                        fixed[int(i)] = (float(target[int(i)]) if isinstance(target, list) else float(target)) if target is not None else best[int(i)]
                         when[('pin', int(i))] = len(applied)
                 elif name == 'CollapseAs':
                     for (i, j) in v:
